@@ -385,7 +385,8 @@ class RangeNode(OperandNode):
             return ', '.join(self._emit(value=str(addr)) for addr in address)
         else:
             template = '_R_("{}")' if address.is_range else '_C_("{}")'
-            return template.format(address)
+            # (a sheet name may hold a double quote)
+            return template.format(str(address).replace('"', '\\"'))
 
 
 class FunctionNode(ASTNode):
@@ -477,7 +478,8 @@ class FunctionNode(ASTNode):
     @property
     def _build_reference(self):
         if len(self.children) == 0:
-            address = f'_REF_("{self.cell.address}")'
+            address = '_REF_("{}")'.format(
+                str(self.cell.address).replace('"', '\\"'))
         else:
             address = self.children[0].emit
             address = address.replace('_R_', '_REF_').replace('_C_', '_REF_')
@@ -500,7 +502,7 @@ class FunctionNode(ASTNode):
         to_emit = list(c.emit for c in self.children)
         if len(to_emit) == 1:
             to_emit.append('True')
-        to_emit.append(f'"{self.cell.sheet}"')
+        to_emit.append('"{}"'.format(self.cell.sheet.replace('"', '\\"')))
         return f'indirect({", ".join(to_emit)})'
 
     SUBTOTAL_FUNCS = {
@@ -615,7 +617,8 @@ class ExcelFormula:
                     if t.type == 1 and t.string in ADDR_FUNCS_NAMES and (
                             tokens[i + 1].string == '(' and
                             tokens[i + 3].string == ')'):
-                        addrs.append(AddressRange(tokens[i + 2].string[1:-1]))
+                        addrs.append(AddressRange(
+                            tokens[i + 2].string[1:-1].replace('\\"', '"')))
                 self._needed_addresses = uniqueify(addrs)
             else:
                 self._needed_addresses = ()
